@@ -425,6 +425,7 @@ nni_aio_start(nni_aio *aio, nni_aio_cancel_fn cancel, void *data)
 		aio->a_abort     = false;
 		aio->a_expire_ok = false;
 		aio->a_count     = 0;
+		aio->a_result    = aio->a_abort_rv;
 		NNI_ASSERT(aio->a_result != NNG_OK);
 #ifdef NNG_VERIF
 		aio->a_v_done++;
@@ -486,8 +487,11 @@ nni_aio_abort(nni_aio *aio, nng_err rv)
 		if (fn == NULL) {
 			// We haven't been scheduled yet,
 			// so make sure that schedule will abort.
-			aio->a_abort  = true;
-			aio->a_result = rv;
+			// (We must not touch a_result: the operation may
+			// have completed already, with its callback yet to
+			// run and read the result.)
+			aio->a_abort    = true;
+			aio->a_abort_rv = rv;
 		}
 		nni_mtx_unlock(&eq->eq_mtx);
 		NNI_VERIF_PT(NNI_VP_AIO_ABORT_UNLOCKED);
